@@ -127,6 +127,8 @@ def conformance(ctx, scheds, runs):
                 nxt = sub[reached] if reached < len(sub) else None
                 conf["first_rejection"] = {"group": [inl, itv], "consumed": reached, "of": total,
                                            "next_line": {k: v for k, v in (nxt or {}).items() if k != "reads"}}
+                start = max(j for j in range(min(reached, len(sub) - 1) + 1) if sub[j]["ev"] == "Reset")
+                save_replay(ctx.prop, "drift-trace.json", {"rejected_line": nxt, "trace_so_far": sub[start:reached + 1]})
     return conf
 
 
@@ -190,6 +192,13 @@ def check(ctx, prop):
     if others:
         ctx.log("note: predicates of other properties were false in this run (reported by their own checks): %s" % others)
     st = self_test(ctx, runs)
+    conf = conformance(ctx, scheds, runs)
+    drift = conf["rejected_groups"] > 0
+    level = "model_checking"
+    if drift:
+        ctx.log("DRIFT: conformance layer stopped at " + json.dumps(conf["first_rejection"])[:600])
+        if not violations:
+            level = "exploration"  # the exhaustive model result no longer transfers to this code
     mcs = res["mcs"]
     cov = {
         "states": sum(r.distinct for r in mcs.values()), "transitions": sum(r.generated for r in mcs.values()),
@@ -200,10 +209,10 @@ def check(ctx, prop):
         "rule": "schedules = TLC counterexamples of the named deviations (each with cache on/off) + seeded TLC -simulate behaviours of 3 larger configs; non-trivial = >=2 producers and (an injected S3 fault, a crash, or >=2 overlapping flush calls); distinct by step sequence",
         "deviation_schedules": res["devnames"], "gate_hits": res["hits"],
         "read_grid": {"maxBytes": MBS, "reads": sum(len(r.get("reads", [])) for r in rows if r["ev"] == "Grid")},
-        "binding_self_test": st, "conformance": "not run",
+        "binding_self_test": st, "conformance": ("drift" if drift else "accepted"), "conformance_detail": conf,
         "samples": [scheds[0]["steps"], scheds[-1]["steps"][:25], [{k: v for k, v in r.items() if k != "reads"} for r in runs[0][:6]]],
     }
-    return verdict(ctx, violations, "model_checking", cov,
+    return verdict(ctx, violations, level, cov,
                    ["one partition; S3 and the metadata store are in-process fakes that record every put under their own lock",
                     "replay is steering: the recorded order (sequence numbers taken under the locks) is what is validated, not the intended order",
                     "<=1 crash per schedule in exhaustive configs (<=2 in simulation)"])
@@ -228,7 +237,17 @@ def self_test(ctx, runs):
         _, viol, _ = layers.observe(ctx, DIR, "Obs_Log.tla", "Obs_Log.cfg", bad, name="selfO2")
         if not any(v[1] == "C05_Monotone" for v in viol):
             raise Broken("binding self-test: observation layer did not flag a lowered watermark")
-    return {"observation_layer_flags_missing_segment": True, "observation_layer_flags_lowered_watermark": bool(tgt)}
+    bad = copy.deepcopy(run)
+    tgt2 = [x for x in bad if x["ev"] == "FlushCommit"]
+    confrej = False
+    if tgt2:
+        tgt2[-1]["st"]["next"] += 1
+        c = conformance(ctx, [{"inline": bad[0]["inline"], "interval": bad[0]["interval"]}], [bad])
+        confrej = c["rejected_groups"] == 1
+        if not confrej:
+            raise Broken("binding self-test: conformance layer accepted a corrupted nextOffset in a FlushCommit line")
+    return {"observation_layer_flags_missing_segment": True, "observation_layer_flags_lowered_watermark": bool(tgt),
+            "conformance_layer_rejects_corrupted_state": confrej}
 
 
 def replay(ctx, prop, path):
